@@ -1,7 +1,8 @@
 /* err_matrix.c — failed-operation matrix for property C12 (black-box, public API).
  * case:  <kind> <n> <scenario> [<seed>]
  *   kind: A Array<Int>  L List<Int>  U heap Tuple of Int  T Table<Int,Int>  R Tree<Int,Int>
- *         S String  K Table<String,String>  G Range(0,n)
+ *         S String  K Table<String,String>  G range(0,n)  H range(5,5+n)  J range(0,3n,3)
+ *         V slice(array of 3n Ints, 0, 3n, 3)   (all of length n)
  *   n:    number of elements before the failing call (elements 10,20,30,... / keys 1..n)
  *   scenario: name of ONE invalid call (see run_scenario)
  * transcript:  <exception or ok or NA>;<same|CHANGED:before->after>;<usable|UNUSABLE:why>
@@ -32,7 +33,7 @@ static void dump_to(var c, char* buf, size_t cap) {
       for (int64_t k = -2; k <= N + 40; k++) { char kb[32]; snprintf(kb, sizeof kb, "k%" PRId64, k); var kk = $S(kb); if (mem(c, kk)) PUT("%s=%s,", kb, c_str(get(c, kk))); }
       PUT("}"); break; }
     case 'S': PUT("#%zu\"%s\"", len(c), c_str(c)); break;
-    case 'G': { size_t n = len(c); PUT("#%zu[", n); size_t k = 0;
+    case 'G': case 'H': case 'J': case 'V': { size_t n = len(c); PUT("#%zu[", n); size_t k = 0;
       foreach (e in c) { PUT("%s%" PRId64, k ? "," : "", (int64_t)c_int(e)); if (++k > n + 3) break; } PUT("]"); break; }
   }
 }
@@ -49,6 +50,10 @@ static var build(void) {
       for (int64_t i = 1; i <= N; i++) { char kb[32], vb[32]; snprintf(kb, 32, "k%" PRId64, i); snprintf(vb, 32, "v%" PRId64, i); set(c, $S(kb), $S(vb)); } break;
     case 'S': { c = new_raw(String, $S("")); for (int64_t i = 0; i < N; i++) { char b[2] = { (char)('a' + (i % 3)), 0 }; append(c, $S(b)); } break; }
     case 'G': c = new_raw(Range, $I(0), $I(N)); break;
+    case 'H': c = new_raw(Range, $I(5), $I(5 + N)); break;
+    case 'J': c = new_raw(Range, $I(0), $I(3 * N), $I(3)); break;
+    case 'V': { var a = new_raw(Array, Int); for (int64_t i = 0; i < 3 * N; i++) push(a, $I(100 + i));
+                c = new(Slice, a, $I(0), $I(3 * N), $I(3)); break; }   /* managed: a Slice owns a managed Range; kept alive from this frame */
   }
   return c;
 }
@@ -57,7 +62,10 @@ static var build(void) {
 static int run_scenario(var c, const char* sc) {
   int seq = (kind == 'A' || kind == 'L' || kind == 'U'), map = (kind == 'T' || kind == 'R');
   #define IS(x) (strcmp(sc, x) == 0)
-  if (seq || kind == 'G') {
+  int rng = (kind == 'G' || kind == 'H' || kind == 'J' || kind == 'V');
+  if (seq || rng) {
+    if (IS("get_wrap"))     { get(c, $I(0x5555555555555555LL)); return 1; }      /* 3*i wraps to -1 in int64 */
+    if (IS("get_wrap2"))    { get(c, $I(0x2AAAAAAAAAAAAAABLL)); return 1; }      /* 3*i wraps to INT64_MIN+1 */
     if (IS("get_len"))      { get(c, $I(N)); return 1; }
     if (IS("get_neg"))      { get(c, $I(-N - 1)); return 1; }
     if (IS("get_far"))      { get(c, $I(N + 1000)); return 1; }
@@ -117,7 +125,7 @@ static int run_scenario(var c, const char* sc) {
   if (IS("len_null"))       { len(NULL); return 1; }
   if (IS("unimplemented")) {
     if (kind == 'S') { push(c, $I(1)); return 1; }          /* String has no Push */
-    if (kind == 'G') { push(c, $I(1)); return 1; }
+    if (rng) { push(c, $I(1)); return 1; }
     if (map || kind == 'K') { push(c, $I(1)); return 1; }
     if (seq) { c_int(c); return 1; }                        /* containers have no C_Int */
   }
@@ -134,7 +142,7 @@ static void exercise(var c, char* buf, size_t cap) {
     case 'T': case 'R': set(c, $I(N + 20), $I(5)); set(c, $I(1), $I(6)); if (mem(c, $I(2))) rem(c, $I(2)); break;
     case 'K': set(c, $S("k30"), $S("n")); set(c, $S("k1"), $S("m")); if (mem(c, $S("k2"))) rem(c, $S("k2")); break;
     case 'S': append(c, $S("xy")); if (mem(c, $S("xy"))) rem(c, $S("x")); break;
-    case 'G': break;
+    default: break;
   }
   dump_to(c, buf, cap);
 }
